@@ -254,6 +254,7 @@ type harness struct {
 	pads *hx.Stream
 	kids *hx.Stream
 	hist *hx.Stream
+	cuts *hx.Stream
 }
 
 func (h *harness) pick(n int) int { return h.cfg.Rand.Intn(n) }
@@ -1576,6 +1577,8 @@ func main() {
 	h.kids = hx.NewStream("child", "gen.GenKeys model.Keys model.Parser model.TermMouse model.TermKeys", "child_case", "c13_child_mismatches", "c13_child_violations")
 	h.hist = hx.NewStream("hist", "gen.GenKeys model.Keys model.Parser model.TermMouse model.TermKeys model.TermHist", "hist_case", "c13_hist_mismatches", "c13_hist_violations")
 	h.hist.ShardMax = 40
+	h.cuts = hx.NewStream("cut", "gen.GenKeys model.Keys model.Parser model.TermMouse model.TermKeys model.TermHist", "hist_case", "c13_cut_mismatches", "c13_cut_violations")
+	h.cuts.ShardMax = 40
 	h.keys.ShardMax = 250
 	h.mice.ShardMax = 250
 	h.kids.ShardMax = 250
@@ -1584,6 +1587,7 @@ func main() {
 	h.genMouse()
 	h.genChild()
 	h.genHist()
+	h.genCut()
 	ok := hx.WithTimeout(5*time.Second, h.host.vx.Close)
 	extra := map[string]interface{}{"host_reads": h.host.reads, "host_reads_after_pause": h.host.pauses, "host_closed": ok}
 	cfg.Write("C13", "key stream: every key of xtermKeymap x 8 modifier sets x DECCKM x DECKPAM exhaustively, every named key, printable ASCII x 8 modifier sets exhaustively, "+
@@ -1598,6 +1602,9 @@ func main() {
 		"random output with keypad switches, RIS, text, SM/RM/DECRQM and other control functions in between; then DECRQM for the eight input modes and one key / paste boundary / mouse event "+
 		"through Model.Update; the property is decided from the requests the generator put into the output (the child's last word on each mode), not from the emulator's mode state. "+
 		"non-trivial = key: Shift/Alt/Ctrl held, a special key or a non-default mode; "+
-		"mouse: something was written; child: a DECSET/DECRST with at least two parameters; hist: an event, then child output, then another event on the same emulator; distinct by the whole case",
-		[]*hx.Stream{h.pads, h.keys, h.mice, h.kids, h.hist}, extra, h.host.direct)
+		"mouse: something was written; child: a DECSET/DECRST with at least two parameters; hist: an event, then child output, then another event on the same emulator; "+
+		"cut stream: ONE emulator fed by ONE real ansi.Parser whose input arrives in pieces cut at arbitrary byte offsets (every mode-setting control function — DECSET/DECRST alone and in parameter lists, "+
+		"ESC = / ESC > / RIS — cut at EVERY byte offset with the governed gesture forwarded before, between the halves and after; whole streams byte by byte; random streams cut at random places), "+
+		"a request counts from the read that delivers its last byte; non-trivial = an event was forwarded while a control function was half delivered; distinct by the whole case",
+		[]*hx.Stream{h.pads, h.keys, h.mice, h.kids, h.hist, h.cuts}, extra, h.host.direct)
 }
